@@ -310,6 +310,11 @@ def make_enforcer(rules, dflt=None, registered=(), enforce_scope=True, via='rule
         e.set_rules(policy.Rules.from_dict(rules, e.default_rule), use_conf=False)
     elif via == 'own_default':
         e.set_rules(policy.Rules.from_dict(rules, 'd' if 'd' in rules else (sorted(rules)[0] if rules else 'default')), use_conf=False)
+    elif via == 'no_default':
+        e.set_rules(policy.Rules.from_dict(rules), use_conf=False)           # a Rules object without any default rule
+    elif via == 'loaded':
+        import json as _json
+        e.set_rules(policy.Rules.load(_json.dumps(rules)), use_conf=False)
     elif via == 'dict':
         e.set_rules({n: _parser.parse_rule(t) for n, t in rules.items()}, use_conf=False)
     return e
